@@ -287,3 +287,70 @@ Proof.
   cbv zeta. split; [split; [cbn; repeat split; vm_compute; congruence|left; reflexivity]|].
   split; [reflexivity|]. split; reflexivity.
 Qed.
+
+(* ======================================================================================
+   The message codecs are the code: Gen/GenMessages.v is regenerated on every run from
+   messages.go (callReq, callRes, errorMessage, cancelMessage, initMessage, transportHeaders,
+   noBodyMsg, callResContinue read/write), tracing.go (Span read/write) and frame.go
+   (FrameHeader read/write), LOOPS INCLUDED (`for i := 0; i < n; i++` => go_for, `for k, v :=
+   range m` => go_range over the map's entries in iteration order, a universally quantified
+   list; m[k] = v => the entry appended to the insertion log), calling the generated buffer
+   primitives of Gen/GenTypedBuf.v.  Vocabulary (Proofs/GenMessagesP.v):
+     absSpan / absCallReq / ... = the model record of a Go message struct (the id field dropped);
+     bokR g = the unread bytes of g are bytes (Go typing), kept by every read;
+     stepWE o g m = the generated write method o: no panic, wfW kept, new buffer seen through
+        absW = m applied to the old view, returned error = the buffer's error;
+     stepRE abs o g m = the generated read method o: no panic, (abs message, view of the new
+        buffer) = m applied to the old view, bokR kept, returned error = the buffer's error.
+   Hypotheses are Go typing facts (a byte field is 0..255) and, for FrameHeader.write, that
+   fh.reserved is the zero array (nothing in the library assigns it; read drops the 8 bytes).
+   Still hand-written (tied by correspondence only): Frame.write / Frame.read / ReadBody /
+   ReadIn / WriteOut (interface-typed message, io.Reader / io.Writer).
+   ====================================================================================== *)
+From Verif Require Import Gen.GenMessages Proofs.GenMessagesP.
+
+Theorem C06_messages_generated :
+  (* ---- write methods (messages.go, tracing.go, frame.go) ---- *)
+  (forall s g, wfW g -> 0 <= Span_flags s < 256 -> stepWE (Span_write s g) g (w_span (absSpan s))) /\
+  (forall h g, wfW g -> stepW (transportHeaders_write h g) g (w_headers h)) /\
+  (forall m g, wfW g -> 0 <= Span_flags (callReq_Tracing m) < 256 ->
+     stepWE (callReq_write m g) g (w_callreq (absCallReq m))) /\
+  (forall m g, wfW g -> 0 <= Span_flags (callRes_Tracing m) < 256 ->
+     stepWE (callRes_write m g) g (w_callres (absCallRes m))) /\
+  (forall m g, wfW g -> 0 <= Span_flags (errorMessage_tracing m) < 256 ->
+     stepWE (errorMessage_write m g) g (w_error (absError m))) /\
+  (forall m g, wfW g -> 0 <= Span_flags (cancelMessage_tracing m) < 256 ->
+     stepWE (cancelMessage_write m g) g (w_cancel (absCancel m))) /\
+  (forall m g, wfW g -> stepWE (initMessage_write m g) g (Messages.w_init (absInit m))) /\
+  (forall h g, wfW g -> 0 <= FrameHeader_reserved1 h < 256 -> FrameHeader_reserved h = repeat 0 8 ->
+     stepWE (FrameHeader_write h g) g (w_fheader (absFH h))) /\
+  (* ---- read methods ---- *)
+  (forall s g, bokR g -> stepRE absSpan (Span_read s g) g r_span) /\
+  (forall ch g, bokR g ->
+     exists h g', transportHeaders_read ch g = Some (ch ++ h, g') /\ (h, absR g') = r_headers (absR g) /\ bokR g') /\
+  (forall m g, bokR g -> stepRE absCallReq (callReq_read m g) g r_callreq) /\
+  (forall m g, bokR g -> stepRE absCallRes (callRes_read m g) g r_callres) /\
+  (forall m g, bokR g -> stepRE absError (errorMessage_read m g) g r_error) /\
+  (forall m g, bokR g -> stepRE absCancel (cancelMessage_read m g) g r_cancel) /\
+  (forall m g, bokR g -> stepRE absInit (initMessage_read m g) g Messages.r_init) /\
+  (forall h g, bokR g -> stepRE absFH (FrameHeader_read h g) g r_fheader) /\
+  (forall h g e h' g', FrameHeader_read h g = Some (e, h', g') -> FrameHeader_reserved h' = FrameHeader_reserved h) /\
+  (* ---- messages without a body: ping req/res, call req continue (noBodyMsg), call res continue ---- *)
+  (forall x r, noBodyMsg_read x r = Some 0) /\ (forall x w, noBodyMsg_write x w = Some 0) /\
+  (forall c r, callResContinue_read c r = Some 0) /\ (forall c w, callResContinue_write c w = Some 0).
+Proof. exact messages_generated. Qed.
+
+Print Assumptions C06_messages_generated.
+
+(* non-vacuity: the generated callReq.write on a concrete message, next to the model, and the
+   generated callReq.read of the bytes written *)
+Example C06_example_messages_generated :
+  let m := mk_callReq 7 (1500 * 1000000) (mk_Span 3 2 1 1) [([97; 115], [114; 97; 119])] [115; 118; 99] in
+  let g := mk_WriteBuffer (Some (repeat 0 64)) (Some (mkSref 0 64)) 0 in
+  let bytes := [0;0;5;220; 0;0;0;0;0;0;0;1; 0;0;0;0;0;0;0;2; 0;0;0;0;0;0;0;3; 1; 3;115;118;99; 1; 2;97;115; 3;114;97;119] in
+  option_map (fun p => (fst p, wout (absW (snd p)))) (callReq_write m g) = Some (0, bytes) /\
+  wout (w_callreq (absCallReq m) (wb 64)) = bytes /\
+  option_map (fun p => (fst (fst p), absCallReq (snd (fst p)), absR (snd p)))
+             (callReq_read (mk_callReq 7 0 (mk_Span 0 0 0 0) [] []) (mk_ReadBuffer (Some (bytes ++ [9])) 0))
+    = Some (0, absCallReq m, rb [9]).
+Proof. cbv zeta. split; [vm_compute; reflexivity|]. split; vm_compute; reflexivity. Qed.
